@@ -7,14 +7,14 @@ package poseidon
 // repository's own tables, for every input; widths t = 2 and t = 3 are verified as two cases.
 
 //@ func (sbox) DefineGadget
-//@   property C05
+//@   property C05 C12
 //@   returns Variable
 //@   ensures result == poseidon.pow5(s.Inp)
 //@   ensures inField(result)
 //@   reveal field.mul poseidon.pow5
 
 //@ func (mds) DefineGadget
-//@   property C05
+//@   property C05 C12
 //@   returns []Variable
 //@   requires len(m.Inp) == 2 || len(m.Inp) == 3
 //@   cases len(m.Inp) == 2 | len(m.Inp) == 3
@@ -25,7 +25,7 @@ package poseidon
 //@   reveal field.mul field.add poseidon.mix
 
 //@ func (halfRound) DefineGadget
-//@   property C05
+//@   property C05 C12
 //@   returns []Variable
 //@   requires (len(h.Inp) == 2 || len(h.Inp) == 3) && len(h.Consts) == len(h.Inp)
 //@   cases len(h.Inp) == 2 | len(h.Inp) == 3
@@ -40,7 +40,7 @@ package poseidon
 //@   reveal field.add poseidon.arkS poseidon.mix
 
 //@ func (fullRound) DefineGadget
-//@   property C05
+//@   property C05 C12
 //@   returns []Variable
 //@   requires (len(h.Inp) == 2 || len(h.Inp) == 3) && len(h.Consts) == len(h.Inp)
 //@   cases len(h.Inp) == 2 | len(h.Inp) == 3
@@ -55,7 +55,7 @@ package poseidon
 //@   reveal field.add poseidon.arkS poseidon.mix
 
 //@ func (poseidon) DefineGadget
-//@   property C05
+//@   property C05 C12
 //@   returns []Variable
 //@   requires len(g.Inputs) == 2 || len(g.Inputs) == 3
 //@   cases len(g.Inputs) == 2 | len(g.Inputs) == 3
@@ -86,14 +86,14 @@ package poseidon
 //@     decreases 4 - i
 
 //@ func (Poseidon1) DefineGadget
-//@   property C05
+//@   property C05 C12
 //@   returns Variable
 //@   ensures result == poseidon.hash1(g.In)
 //@   ensures inField(result)
 //@   reveal poseidon.hash1
 
 //@ func (Poseidon2) DefineGadget
-//@   property C05
+//@   property C05 C12
 //@   returns Variable
 //@   ensures result == merkle.H2(g.In1, g.In2)
 //@   ensures inField(result)
